@@ -49,7 +49,11 @@ Record Post (S G pend : list task) (w w' : world) (seg : list event) : Prop := m
   po_keep : forall s, In s S \/ In s G -> memN s (consistent w') = true -> memN s (consistent w) = true;
   po_eframe : forall s d, In s S -> get_edata (gr w') (tn s) d = get_edata (gr w) (tn s) d;
   po_oframe : forall s, In s S \/ In s G -> get_task_output w' s = get_task_output w s;
-  po_inv : Inv2 w -> Inv2 w'
+  po_inv : Inv2 w -> Inv2 w';
+  po_others : forall m, ~ In m (execs seg) -> ~ In m G ->
+    kids_of (gr w') (tn m) = kids_of (gr w) (tn m) /\
+    (forall d, get_edata (gr w') (tn m) d = get_edata (gr w) (tn m) d) /\
+    get_task_output w' m = get_task_output w m
 }.
 
 Lemma tn_inj a b : tn a = tn b -> a = b. Proof. unfold tn. lia. Qed.
@@ -114,7 +118,10 @@ Qed.
 
 (* ---- Post algebra ---- *)
 Lemma post_refl S G w : StoreOK w -> Post S G [] w w [].
-Proof. intros H. constructor; try tauto; try (intros; reflexivity); cbn; try constructor; try tauto. intros x X; exact X. Qed.
+Proof.
+  intros H. constructor; try tauto; try (intros; reflexivity); cbn; try constructor; try tauto.
+  intros x X; exact X.
+Qed.
 
 Lemma post_quiet S G w w' :
   StoreOK w' -> (forall m, kids_of (gr w') m = kids_of (gr w) m) -> (forall m, live (gr w) m = true -> live (gr w') m = true) ->
@@ -137,12 +144,13 @@ Proof.
   - intros [N C]. split.
     + intros t d X. rewrite E in X. unfold get_task_output. rewrite O. apply (N t d X).
     + intros t X. rewrite M in X. unfold get_task_output. rewrite O. apply (C t X).
+  - intros m _ _. split; [apply K|]. split; [intros d; apply E|]. unfold get_task_output. rewrite O. reflexivity.
 Qed.
 
 Lemma post_seq S G pend w w1 w2 a b :
   Post S G [] w w1 a -> Post S G pend w1 w2 b -> Post S G pend w w2 (a ++ b).
 Proof.
-  intros [A1 A2 A3 A4 A5 A6 A7 A8 A9 A10 A11 A12 A13] [B1 B2 B3 B4 B5 B6 B7 B8 B9 B10 B11 B12 B13]. constructor.
+  intros [A1 A2 A3 A4 A5 A6 A7 A8 A9 A10 A11 A12 A13 A14] [B1 B2 B3 B4 B5 B6 B7 B8 B9 B10 B11 B12 B13 B14]. constructor.
   - exact B1.
   - intros s Hs. rewrite B2, A2 by exact Hs. reflexivity.
   - intros g x Hg X. apply B3; [exact Hg|]. apply A3; assumption.
@@ -160,6 +168,10 @@ Proof.
   - intros s d Hs. rewrite B11, A11 by exact Hs. reflexivity.
   - intros s Hs. rewrite B12, A12 by exact Hs. reflexivity.
   - intros X. apply B13, A13. exact X.
+  - intros m Hm Hg. rewrite execs_app in Hm.
+    destruct (A14 m (fun X => Hm (in_or_app _ _ _ (or_introl X))) Hg) as [P1 [P2 P3]].
+    destruct (B14 m (fun X => Hm (in_or_app _ _ _ (or_intror X))) Hg) as [Q1 [Q2 Q3]].
+    split; [rewrite Q1, P1; reflexivity|]. split; [intros d; rewrite Q2, P2; reflexivity|rewrite Q3, P3; reflexivity].
 Qed.
 
 (* weaker record for aborted computations: what was executed before the abort, and the invariants of the store left behind *)
@@ -171,10 +183,10 @@ Record PostA (S G : list task) (w w' : world) (seg : list event) : Prop := mkPos
   pa_inv : Inv2 w -> Inv2 w'
 }.
 Lemma post_to_A S G pend w w' seg : Post S G pend w w' seg -> PostA S G w w' seg.
-Proof. intros [A1 A2 A3 A4 A5 A6 A7 A8 A9 A10 A11 A12 A13]. constructor; assumption. Qed.
+Proof. intros [A1 A2 A3 A4 A5 A6 A7 A8 A9 A10 A11 A12 A13 A14]. constructor; assumption. Qed.
 Lemma postA_seq S G w w1 w2 a b : Post S G [] w w1 a -> PostA S G w1 w2 b -> PostA S G w w2 (a ++ b).
 Proof.
-  intros [A1 A2 A3 A4 A5 A6 A7 A8 A9 A10 A11 A12 A13] [B1 B5 B6 B7 B13]. constructor.
+  intros [A1 A2 A3 A4 A5 A6 A7 A8 A9 A10 A11 A12 A13 A14] [B1 B5 B6 B7 B13]. constructor.
   - exact B1.
   - rewrite B5, A5, rev_app_distr, app_assoc. reflexivity.
   - rewrite execs_app. apply NoDup_app_intro_t; try assumption.
@@ -447,6 +459,8 @@ Proof.
   - intros s d Hs. apply A6. intros E. apply tn_inj in E. subst. tauto.
   - intros s _. unfold get_task_output. rewrite A7. reflexivity.
   - exact LI.
+  - intros m _ Hm. assert (Hne : tn m <> tn t) by (intros E; apply tn_inj in E; subst; apply Hm; left; reflexivity).
+    split; [apply G1; exact Hne|]. split; [intros d; apply A6; exact Hne|]. unfold get_task_output. rewrite A7. reflexivity.
 Qed.
 Lemma leaf_postA S t w w' : Leaf t w w' -> get_task_output w t = None -> exists seg, PostA S [t] w w' seg.
 Proof.
@@ -458,7 +472,7 @@ Qed.
 (* ---- more Post algebra ---- *)
 Lemma post_shift S t pend w w' seg : Post (t :: S) [] pend w w' seg -> Post S [t] pend w w' seg.
 Proof.
-  intros [A1 A2 A3 A4 A5 A6 A7 A8 A9 A10 A11 A12 A13]. constructor; try assumption.
+  intros [A1 A2 A3 A4 A5 A6 A7 A8 A9 A10 A11 A12 A13 A14]. constructor; try assumption.
   - intros s Hs. apply A2. right. exact Hs.
   - intros g x [<-|[]] X. rewrite A2 by (left; reflexivity). exact X.
   - intros x X. destruct (A7 x X) as [P1 [_ P3]]. split; [intros Y; apply P1; right; exact Y|].
@@ -466,10 +480,11 @@ Proof.
   - intros s [Hs|[<-|[]]]; apply A10; left; [right; exact Hs|left; reflexivity].
   - intros s d Hs. apply A11. right. exact Hs.
   - intros s [Hs|[<-|[]]]; apply A12; left; [right; exact Hs|left; reflexivity].
+  - intros m X _. apply A14; [exact X|intros []].
 Qed.
 Lemma post_drop S t pend w w' seg : Post (t :: S) [] pend w w' seg -> Post S [] pend w w' seg.
 Proof.
-  intros [A1 A2 A3 A4 A5 A6 A7 A8 A9 A10 A11 A12 A13]. constructor; try assumption.
+  intros [A1 A2 A3 A4 A5 A6 A7 A8 A9 A10 A11 A12 A13 A14]. constructor; try assumption.
   - intros s Hs. apply A2. right. exact Hs.
   - intros x X. destruct (A7 x X) as [P1 [_ P3]]. split; [intros Y; apply P1; right; exact Y|]. split; [intros []|exact P3].
   - intros s [Hs|[]]. apply A10. left. right. exact Hs.
@@ -495,6 +510,7 @@ Proof.
   - exact H. - intros; reflexivity. - intros g x _ X; exact X. - intros m X; exact X. - reflexivity.
   - rewrite E. constructor. - rewrite E. intros x []. - intros x X; exact X. - rewrite E. intros x [].
   - intros s _ X; exact X. - intros; reflexivity. - intros; reflexivity. - intros X; exact X.
+  - intros m _ _. repeat split.
 Qed.
 Lemma post_push_err S G w e : StoreOK w -> Post S G [] w (push_err w e) [].
 Proof. intros H. apply post_quiet; try reflexivity; tauto. Qed.
@@ -503,7 +519,7 @@ Lemma memN_cons x t l : memN x (t :: l) = N.eqb x t || memN x l. Proof. reflexiv
 Lemma post_mark S G t w w' seg : Post S G [t] w w' seg -> ~ In t S -> ~ In t G -> get_task_output w' t <> None ->
   Post S G [] w (mark_consistent w' t) seg.
 Proof.
-  intros [A1 A2 A3 A4 A5 A6 A7 A8 A9 A10 A11 A12 A13] HS HG Ho. constructor; try assumption.
+  intros [A1 A2 A3 A4 A5 A6 A7 A8 A9 A10 A11 A12 A13 A14] HS HG Ho. constructor; try assumption.
   - intros x X. unfold mark_consistent. cbn [consistent set_consistent]. rewrite memN_cons, (A8 x X). apply orb_true_r.
   - intros x X. left. unfold mark_consistent. cbn [consistent set_consistent]. rewrite memN_cons.
     destruct (A9 x X) as [Z|[<-|[]]]; [rewrite Z; apply orb_true_r|rewrite N.eqb_refl; reflexivity].
@@ -515,7 +531,7 @@ Proof.
     apply C. rewrite (proj2 (N.eqb_neq x t) Hne) in Y. exact Y.
 Qed.
 Lemma post_pend S G pend w w' seg : Post S G [] w w' seg -> Post S G pend w w' seg.
-Proof. intros [A1 A2 A3 A4 A5 A6 A7 A8 A9 A10 A11 A12 A13]. constructor; try assumption. intros x X. destruct (A9 x X) as [Z|[]]. left. exact Z. Qed.
+Proof. intros [A1 A2 A3 A4 A5 A6 A7 A8 A9 A10 A11 A12 A13 A14]. constructor; try assumption. intros x X. destruct (A9 x X) as [Z|[]]. left. exact Z. Qed.
 
 (* composition through outcomes *)
 Lemma okP_pre {A} S G pend w w1 a (m : outcome A) extra :
@@ -579,7 +595,7 @@ Variable P : task -> prog.
    user-level ones, and both invariants hold in the store that is left *)
 Definition MCspec (mc : world -> task -> outcome Z) : Prop :=
   forall w t S, StoreOK w -> Inv2 w -> Chain w S -> entry_ok w S t ->
-    okP S [] [] w (mc w t) (fun _ w' => cur w' = cur w).
+    okP S [] [] w (mc w t) (fun o w' => cur w' = cur w /\ memN t (consistent w') = true /\ get_task_output w' t = Some o).
 Definition REQspec (t : task) (S : list task) (req : world -> task -> ocid -> outcome Z) : Prop :=
   forall w x c, StoreOK w -> Inv2 w -> Chain w (t :: S) -> cur w = Some t -> get_task_output w t = None -> NoResAt w t ->
     okP S [t] [] w (req w x c) (fun _ w' => cur w' = Some t /\ NoResAt w' t).
@@ -615,7 +631,7 @@ Proof.
     pose proof (leaf_chain w w3 S t C L3) as C3. pose proof (po_inv _ _ _ _ _ _ P03 J) as J3.
     pose proof (HM w3 x (t :: S) (lf_ok _ _ _ L3) J3 C3 E3) as M.
     destruct (mc w3 x) as [o w4|k w4|]; cbn [bind]; [| |exact Logic.I].
-    + destruct M as [[s4 P4] Hc4]. cbn beta in Hc4. rewrite Hc3 in Hc4.
+    + destruct M as [[s4 P4] [Hc4 _]]. cbn beta in Hc4. rewrite Hc3 in Hc4.
       eapply okP_pre; [apply post_shift; exact P4|].
       pose proof (po_ok _ _ _ _ _ _ P4) as H4. pose proof (po_inv _ _ _ _ _ _ P4 J3) as J4.
       set (st := oc_stamp (OC c) o).
@@ -715,7 +731,7 @@ Proof.
   assert (N2 : NoResAt w2 t) by (intros d; change (gr w2) with (gr w1); rewrite E0; discriminate).
   pose proof (exec_prog_spec t S req HR (P t) w2 H2 J2 Ch2 eq_refl O0 N2) as B.
   destruct (exec_prog RC OC req (P t) w2) as [o w3|k w3|]; cbn [bind okP] in *; [| |exact Logic.I].
-  - destruct B as [[body [A1 A2 A3 A4 A5 A6 A7 A8 A9 A10 A11 A12 A13]] [Hc3 Hn3]].
+  - destruct B as [[body [A1 A2 A3 A4 A5 A6 A7 A8 A9 A10 A11 A12 A13 A14]] [Hc3 Hn3]].
     set (w4 := set_task_output (set_cur (emit w3 (EExecEnd t o)) (cur w1)) t o).
     split; [|split; [exact U1|apply alookup_aset_eq]].
     exists (EExecStart t :: body ++ [EExecEnd t o]).
@@ -750,6 +766,14 @@ Proof.
       * intros t' X. change (consistent w4) with (consistent w3) in X. destruct (N.eq_dec t' t) as [->|Hne].
         -- unfold w4, get_task_output, set_task_output. cbn [outs set_outs]. rewrite alookup_aset_eq. discriminate.
         -- rewrite O4 by exact Hne. apply (Co3 t' X).
+    + rewrite EX. intros m Hm _. assert (Hne : m <> t) by (intros ->; apply Hm; left; reflexivity).
+      assert (Hb : ~ In m (execs body)) by (intros X; apply Hm; right; exact X).
+      assert (Hg : ~ In m [t]) by (intros [X|[]]; congruence).
+      destruct (A14 m Hb Hg) as [Q1 [Q2 Q3]].
+      split; [|split].
+      * change (kids_of (gr w3) (tn m) = kids_of (gr w) (tn m)). rewrite Q1. change (gr w2) with (gr w1). apply K1. intros E; apply tn_inj in E; contradiction.
+      * intros d. change (get_edata (gr w3) (tn m) d = get_edata (gr w) (tn m) d). rewrite Q2. change (gr w2) with (gr w1). apply E1. intros E; apply tn_inj in E; contradiction.
+      * rewrite O4 by exact Hne. rewrite Q3. change (get_task_output w1 m = get_task_output w m). apply O1. exact Hne.
   - destruct B as [->|[U [body [A1 A5 A6 A7 A13]]]]; [left; reflexivity|right]. split; [exact U|].
     exists (EExecStart t :: body).
     assert (EX : execs (EExecStart t :: body) = t :: execs body) by reflexivity.
@@ -765,11 +789,14 @@ Qed.
 
 Lemma exec_mark_spec t S req : REQspec t S req ->
   forall w, StoreOK w -> Inv2 w -> Chain w (t :: S) -> memN t (consistent w) = false ->
-    okP S [] [] w (bind (execute_with RC OC P req w t) (fun o w2 => Done o (mark_consistent w2 t))) (fun _ w' => cur w' = cur w).
+    okP S [] [] w (bind (execute_with RC OC P req w t) (fun o w2 => Done o (mark_consistent w2 t)))
+      (fun o w' => cur w' = cur w /\ memN t (consistent w') = true /\ get_task_output w' t = Some o).
 Proof.
   intros HR w H J C Hn. pose proof (execute_with_spec t S req HR w H J C Hn) as E.
   destruct (execute_with RC OC P req w t) as [o w2|k w2|]; cbn [bind okP] in *; [| |exact Logic.I].
-  - destruct E as [[seg Q] [Hc Ho]]. split; [|exact Hc]. exists seg.
+  - destruct E as [[seg Q] [Hc Ho]]. split; [|split; [exact Hc|split; [|exact Ho]]].
+    2:{ unfold mark_consistent. cbn [consistent set_consistent]. rewrite memN_cons, N.eqb_refl. reflexivity. }
+    exists seg.
     apply post_mark; [exact Q|eapply chain_head_notin; exact C|intros []|congruence].
   - exact E.
 Qed.
@@ -802,7 +829,9 @@ Proof.
       assert (P1 : Post (t :: S) [] [] w w1 [ECheckTaskStart x c st]) by (apply post_emit; [exact H|exact Logic.I]).
       eapply okP_pre; [exact P1|].
       apply (okP_bind (t :: S) [] [] w1 (mc w1 x) _ (fun _ w' => cur w' = cur w1)).
-      * apply HM; [exact H|apply (po_inv _ _ _ _ _ _ P1 J)|apply (chain_post_all w w1 _ _ _ C P1)|]. cbn. apply (HX x c st eq_refl).
+      * eapply okP_extra; [|apply HM; [exact H|apply (po_inv _ _ _ _ _ _ P1 J)|apply (chain_post_all w w1 _ _ _ C P1)|]].
+        -- intros a w' X. exact (proj1 X).
+        -- cbn. apply (HX x c st eq_refl).
       * intros o w2 s2 P2 Hc2.
         set (w3 := emit w2 (ECheckTaskEnd x c st (negb (oc_check (OC c) o st)))).
         assert (P3 : Post (t :: S) [] [] w2 w3 [ECheckTaskEnd x c st (negb (oc_check (OC c) o st))]) by (apply post_emit; [apply (po_ok _ _ _ _ _ _ P2)|exact Logic.I]).
@@ -858,6 +887,7 @@ Proof.
   set (w0 := get_or_create_task_node w t) in *.
   assert (Hc0 : cur w0 = cur w) by (unfold w0, get_or_create_task_node; destruct (live _ _); reflexivity).
   eapply okP_pre; [exact P0|]. eapply okP_extra; [intros a w' X; rewrite <- Hc0; exact X|].
+  cbv beta.
   pose proof (po_ok _ _ _ _ _ _ P0) as H0. pose proof (po_inv _ _ _ _ _ _ P0 J) as J0.
   pose proof (chain_post_all w w0 S [] [] C P0) as C0.
   assert (E0 : entry_ok w0 S t).
@@ -868,21 +898,23 @@ Proof.
   pose proof (require_with_spec (make_consistent_td RC OC P f) t S IH) as HR.
   destruct (memN t (consistent w0)) eqn:Hm.
   - destruct (get_task_output w0 t) eqn:Ho.
-    + split; [exists []; apply post_refl; exact H0|reflexivity].
+    + split; [exists []; apply post_refl; exact H0|split; [reflexivity|split; [exact Hm|exact Ho]]].
     + exfalso. apply (proj2 J0 t Hm). exact Ho.
   - destruct (get_task_output w0 t) as [o0|] eqn:Ho.
     + pose proof (check_deps_spec (make_consistent_td RC OC P f) t S IH (deps_of_task w0 t) w0 H0 J0 C1 (deps_ok w0 t o0 H0 J0 Ho)) as CD.
       destruct (check_deps RC OC (make_consistent_td RC OC P f) (deps_of_task w0 t) w0) as [ok w1|k w1|]; cbn [bind]; [| |exact Logic.I].
       * destruct CD as [[s1 P1] Hc1]. pose proof (post_drop _ _ _ _ _ _ P1) as P1'.
-        eapply okP_pre; [exact P1'|]. eapply okP_extra; [intros a w' X; rewrite <- Hc1; exact X|].
+        eapply okP_pre; [exact P1'|]. eapply okP_extra; [intros a w' X; rewrite <- Hc1; exact X|]. cbv beta.
         assert (C1' : Chain w1 (t :: S)) by (eapply chain_post_all; eassumption).
         pose proof (po_inv _ _ _ _ _ _ P1 J0) as J1.
         assert (Hm1 : memN t (consistent w1) = false).
         { destruct (memN t (consistent w1)) eqn:Z; [|reflexivity]. apply (po_keep _ _ _ _ _ _ P1) in Z; [congruence|left; left; reflexivity]. }
         destruct (if ok then get_task_output w1 t else None) as [o|] eqn:Hok.
-        -- split; [|reflexivity]. exists []. apply post_mark; [|exact Ht|intros []|].
-           ++ apply post_pend. apply post_refl. apply (po_ok _ _ _ _ _ _ P1).
-           ++ destruct ok; [congruence|discriminate].
+        -- assert (Ho1 : get_task_output w1 t = Some o) by (destruct ok; [exact Hok|discriminate]).
+           split; [|split; [reflexivity|split; [|exact Ho1]]].
+           2:{ unfold mark_consistent. cbn [consistent set_consistent]. rewrite memN_cons, N.eqb_refl. reflexivity. }
+           exists []. apply post_mark; [|exact Ht|intros []|congruence].
+           apply post_pend. apply post_refl. apply (po_ok _ _ _ _ _ _ P1).
         -- apply exec_mark_spec; try assumption. apply (po_ok _ _ _ _ _ _ P1).
       * apply (okP_drop S t). exact CD.
     + apply exec_mark_spec; assumption.
